@@ -7,10 +7,10 @@ def all_contracts(src):
     if k in _cache:
         return _cache[k]
     from spec import fields as F
-    from . import validators, strings
+    from . import validators, strings, composeid
     T = F.Tables(src.mods or src.import_native())
     reg = {}
-    for c in validators.flat_contracts(src, T) + strings.contracts(src, T):
+    for c in validators.flat_contracts(src, T) + strings.contracts(src, T) + composeid.contracts(src, T):
         if c.key:
             reg[c.key] = c
     _cache[k] = reg
@@ -19,3 +19,13 @@ def all_contracts(src):
 
 def get(key, src):
     return all_contracts(src)[key]
+
+
+def all_summaries(src):
+    """summaries = proved contracts used modularly at call sites (each is justified by the obligations of its contract)"""
+    from spec import fields as F
+    from . import composeid
+    T = F.Tables(src.mods or src.import_native())
+    out = {}
+    out.update(composeid.summaries(src, T))
+    return out
